@@ -631,6 +631,7 @@ def build(pre):
         c.add_jumper(bib=b, order=i + 1)
     for i, h in enumerate(pre['heights']):
         c.set_bar_height(Decimal(h) / 100)
+        list(c.trials)          # an observer reads the trial list at every new height (reading must not change what is read later)
         for a in range(3):
             for j in pre['jumpers']:
                 col = j['cols'][i] if i < len(j['cols']) else ''
@@ -895,6 +896,8 @@ else:
         # C08 on the concrete witness: the action log rebuilds the competition; so does the exported card (explicit passes aside)
         c2 = c.from_actions()
         if public(snap(c2)) != public(s_after): viol = 'from_actions(actions) differs: %r vs %r' % (public(snap(c2)), public(s_after))
+        elif [tuple(map(str, t)) for t in c.trials] != [tuple(map(str, t)) for t in c2.trials]:
+            viol = 'trials of the live competition (read at every new height while it ran) differ from those of from_actions(actions): %r vs %r' % (list(c.trials), list(c2.trials))
         elif not any('-' in col for j in s_after['jumpers'] for col in j['cols']):
             try:
                 m = c.to_matrix()
